@@ -502,6 +502,18 @@ Theorem C06_e2e_timeout : forall p idem spec cl0 nodes down cs assign frs t0 tmo
   /\ (forall f, In f frs -> (f_arr f <= tret + margin)%N).
 Proof. exact timeout_sound. Qed.
 
+(* after the call has given up with RequestTimeout nothing is sent any more: the predicate the driver
+   evaluates on a rejected timed-out request holds of every accepted one *)
+Theorem C06_e2e_timeout_frames : forall p idem spec cl0 nodes down cs assign frs t0 tmo tret margin,
+  check_timeout p idem spec cl0 nodes down cs assign frs t0 tmo tret margin = true ->
+  prop_timeout_frames tret margin frs = true.
+Proof. exact timeout_prop_frames. Qed.
+
+Example C06_ex_timeout_frames :
+  prop_timeout_frames 101000 150000 [mkFrame 2 CQuorum 10 AnsNone 0 0; mkFrame 0 CQuorum 640000 AnsNone 0 0] = false /\
+  prop_timeout_frames 101000 150000 [mkFrame 2 CQuorum 10 AnsNone 0 0; mkFrame 0 CQuorum 240000 AnsNone 0 0] = true.
+Proof. vm_compute. split; reflexivity. Qed.
+
 Example C06_ex_timeout :
   (* not idempotent, timeout 100 ms, the only frame unanswered when the call returned at 101 ms *)
   check_timeout PDefault false (Some 2%nat) CQuorum [0; 1; 2]%N [] [mkCert [2]%N [OSuccess] true] [0%nat]
@@ -630,6 +642,7 @@ Print Assumptions C06_e2e_prop_frames_any.
 Print Assumptions C06_e2e_request_bound.
 Print Assumptions C06_e2e_no_more.
 Print Assumptions C06_e2e_same_shard.
+Print Assumptions C06_e2e_timeout_frames.
 Print Assumptions C06_e2e_timeout.
 Print Assumptions C06_e2e_run.
 Print Assumptions C06_e2e_resend.
